@@ -576,6 +576,7 @@ class Engine:
                 wf = [f for f in rw["failed"] if "WITNESS main" in (f["description"] or "")]
                 if to:
                     w["reason"] = "timeout"
+                    w["not_run_to_completion"] = True
                 elif wf:
                     leaves = trace_inputs(wf[0].get("trace"))
                     rep = self.native_replay(q, wd, leaves, True, "wit")
@@ -588,9 +589,12 @@ class Engine:
                 else:
                     w["reason"] = "witness assertion not violated: harness may be vacuous (%s)" % rw["status"]
                 rec["witness"] = w
-                if not w["ok"]:
+                if not w["ok"] and not w.get("not_run_to_completion"):
                     rec["verdict"] = "vacuous"
                     rec["reason"] = w.get("reason", "")
+                elif not w["ok"]:
+                    # the deciding run held; the reachability twin was cut by the time budget: not counted as non-trivial
+                    rec["reason"] = "held; witness twin not finished inside the budget"
 
     def list_functions(self, gb, wd, q):
         """library functions reachable from the harness entry (call graph of the goto binary)"""
